@@ -176,6 +176,9 @@ func (s *scenario) randomOp(r *rand.Rand, mayHead, maySetGas, maySleep bool) {
 		s.countAdd(h.add(s.randTx(r), r.Intn(4) == 0))
 	case x < 60:
 		n := 2 + r.Intn(3)
+		if r.Intn(5) == 0 {
+			n = 15 + r.Intn(26) // a large batch as delivered by the p2p layer: pool.mu is held for all of it
+		}
 		ks := make([]txKey, n)
 		for i := range ks {
 			ks[i] = s.randTx(r)
@@ -273,7 +276,7 @@ func runScenario(cfg randCfg, seed int64, stats *randStats, smu *sync.Mutex) (*h
 	s := &scenario{cfg: cfg, h: h, gen: h.chain.head, stats: stats, smu: smu}
 	defer h.stop()
 	if cfg.producers == 0 {
-		for i := 0; i < cfg.steps; i++ {
+		for i := 0; i < cfg.steps && atomic.LoadInt32(&abortAll) == 0; i++ {
 			s.randomOp(r, true, true, true)
 			if r.Intn(3) == 0 {
 				if !s.quiesce("sequential operations") {
@@ -284,7 +287,7 @@ func runScenario(cfg randCfg, seed int64, stats *randStats, smu *sync.Mutex) (*h
 		s.quiesce("the last operation")
 	} else {
 		t0 := time.Now()
-		for round := 0; round < cfg.rounds || time.Since(t0) < cfg.soak; round++ {
+		for round := 0; (round < cfg.rounds || time.Since(t0) < cfg.soak) && atomic.LoadInt32(&abortAll) == 0; round++ {
 			var wg sync.WaitGroup
 			for p := 0; p < cfg.producers; p++ {
 				wg.Add(1)
@@ -304,8 +307,8 @@ func runScenario(cfg randCfg, seed int64, stats *randStats, smu *sync.Mutex) (*h
 			go func() { wg.Wait(); close(done) }()
 			select {
 			case <-done:
-			case <-time.After(60 * time.Second):
-				h.violate("stuck", "producers did not return within 60s", goroutineDump())
+			case <-time.After(40 * time.Second):
+				h.violate("stuck", "producers did not return within 40s", goroutineDump())
 				return h, h.events, initBal
 			}
 			if !s.quiesce(fmt.Sprintf("round %d", round)) {
@@ -365,6 +368,9 @@ func cmdRandom(args []string) {
 		go func() {
 			defer wg.Done()
 			for sc := range jobs {
+				if atomic.LoadInt32(&abortAll) != 0 {
+					continue
+				}
 				h, evs, initBal := runScenario(cfg, *seed*100003+int64(sc), stats, &smu)
 				smu.Lock()
 				stats.Scenarios++
